@@ -258,7 +258,7 @@ PROPS = {
 }
 
 NOT_APPLICABLE = {
-    "C14": "quantifies over processes, hash seeds and threads; determinism would only follow from a functional contract on ProguardCache::write whose collection loop (HashMap/HashSet/BTreeMap entry API) is out of reach of both verifiers",
+    "C14": "quantifies over processes, hash seeds and threads; within one run the collected classes are a function of the record stream (u14) and the tail a function of (classes in key order, strings) (u8), but watto::StringTable::into_bytes (the string section) and the absence of HashSet/HashMap iteration in the output path are outside any contract within reach",
     "C16": "descriptor tokenizer/renderers are char_indices/rsplit_once/format! code rejected by the Verus front end; Kani does not finish on 6 symbolic bytes (measured)",
     "C18": "two lines behind lazy_static! and the optional uuid dependency (SHA-1 inside the dependency); feature is off in the pinned build; a contract would restate the call",
     "C20": "schedules are outside both tools (Kani has no threads; Verus would need its own permission types on code that has no synchronisation); Send+Sync is a type-checker fact",
